@@ -391,6 +391,10 @@ class C04(AstKindProp):
                     p["default"] = d[1]
             out.append((n, p))
         irj = dict(irj, params=out)
+        if r.random() < 0.12:
+            # hand-written style: the default sentence is in the prose without quotes ("Defaults to 8080" for a str)
+            irj["params"] = [(n, dict(p, doc=p["doc"].split(" Defaults to ")[0]) if "doc" in p else p) for n, p in irj["params"]]
+            irj = G.post_parse_shape(r, irj, unquoted=True)
         rt = irj.get("returns")
         if rt is not None and "default" not in rt:
             irj["returns"] = None if r.random() < 0.7 else rt
